@@ -9,6 +9,8 @@ import (
 	"path/filepath"
 	"regexp"
 	"strings"
+
+	"github.com/JunNishimura/Goit/internal/atomicfile"
 )
 
 var (
@@ -171,12 +173,6 @@ func (c *Config) Add(ident, key, value string, isGlobal bool) {
 }
 
 func (c *Config) Write(configPath string, isGlobal bool) error {
-	f, err := os.Create(configPath)
-	if err != nil {
-		return err
-	}
-	defer f.Close()
-
 	var content string
 	var kvs map[string]kv
 	if isGlobal {
@@ -191,9 +187,5 @@ func (c *Config) Write(configPath string, isGlobal bool) error {
 		}
 	}
 
-	_, err = f.WriteString(content)
-	if err != nil {
-		return err
-	}
-	return nil
+	return atomicfile.Write(configPath, filepath.Dir(configPath), []byte(content))
 }
